@@ -25,11 +25,13 @@ ASSUMPTIONS = ["accuracy requirement 1e-6 relative to F(0) plus the cancellation
 @st.composite
 def _qcase(draw):
     n = draw(st.sampled_from([1, 1, 2, 5, 16, 40]))
-    return {"n": n, "nz": draw(noise(5 * n)), "density": draw(st.sampled_from([1.0, 1.0, 2.5, 0.3]))}
+    return {"n": n, "nz": draw(noise(5 * n)), "density": draw(st.sampled_from([1.0, 1.0, 2.5, 0.3])),
+            "qtype": draw(st.sampled_from(["float", "float", "float", "float", "int64", "int32"]))}
 
 
 def build_q(qc, size, normals, edge_dirs):
-    """(n,3) wave vectors; kinds: 0 generic, 1 zero, 2 along a face normal, 3 perpendicular to an edge, 4 axis, 5 near a face normal."""
+    """(n,3) wave vectors; kinds: 0 generic, 1 zero, 2 along a face normal, 3 perpendicular to an edge, 4 axis, 5 near a face normal,
+    6 huge normal component next to a modest in-plane part."""
     n = qc["n"]
     u = unit(qc["nz"]).reshape(n, 5)
     Q = np.zeros((n, 3))
@@ -66,7 +68,21 @@ def build_q(qc, size, normals, edge_dirs):
             t /= np.linalg.norm(t)
             d = math.cos(ang) * nn + math.sin(ang) * t
             kinds[i] = 5
+        elif m < 0.70 and len(normals):
+            # a modest in-plane part next to a huge component along a face normal (|q.n| / |q_inplane| up to 1e7): for a
+            # polygon only the in-plane part matters, and it must not be obtained as a difference of huge numbers
+            nn = np.asarray(normals[int(u[i, 1] * len(normals)) % len(normals)], dtype=float)
+            t = np.cross(nn, d)
+            if np.linalg.norm(t) < 1e-6:
+                t = np.cross(nn, [0.3, 0.5, 0.8])
+            t /= np.linalg.norm(t)
+            Q[i] = (10.0 ** (-2.5 + 3.0 * u[i, 2]) * t + 10.0 ** (2.0 + 2.5 * u[i, 3]) * nn) / size
+            kinds[i] = 6
+            continue
         Q[i] = mag * d
+    if qc.get("qtype", "float") != "float":
+        # integer-valued wave vectors (reciprocal-lattice indices), handed over as an integer ndarray (lists are not promised: Polyhedron multiplies q by itself)
+        Q = np.round(Q) if size >= 1 else np.round(Q * size)
     return Q, kinds
 
 
@@ -113,15 +129,22 @@ def _known_defect_model(kindname, q, geomdata):
     return tot
 
 
-def _compare(rec, shape, Q, kinds, exact, F0, size, normals, sig, density, is_polygon=False, model_data=None):
+def _compare(rec, shape, Q, kinds, exact, F0, size, normals, sig, density, is_polygon=False, model_data=None, qtype="float"):
     n = len(Q)
     arg = Q.copy()
+    if qtype in ("int64", "int32"):
+        arg = Q.astype(getattr(np, qtype))
+    elif qtype == "intlist":
+        arg = [[int(x) for x in row] for row in Q]
+    if qtype != "float":
+        sig = dict(sig, q_as=qtype)
+        rec.label("q_as:" + qtype)
     got = call(shape.compute_form_factor_amplitude, arg) if density == 1.0 else call(shape.compute_form_factor_amplitude, arg, density)
     if isinstance(got, Raised):
         rec.fail("form_factor_raised", dict(sig, type=got.type, batch="1" if n == 1 else "n"), msg=got.msg)
         return None
     got = np.asarray(got)
-    rec.check(np.array_equal(arg, Q), "argument_unchanged", sig)
+    rec.check(np.array_equal(np.asarray(arg), Q), "argument_unchanged", sig)
     if not rec.check(got.shape == (n,), "shape", sig, got=list(got.shape)):
         return None
     want = density * exact
@@ -219,7 +242,7 @@ def _solid(case, rec, convex_cls):
     vol = geom.mesh_moments(V, F)["volume"]
     dens = case["q"]["density"]
     rec.concrete = {"vertices": V, "faces": F, "q": Q[:4]}
-    got = _compare(rec, shape, Q, kinds, exact, vol, size, normals, sig, dens, model_data=(V, F))
+    got = _compare(rec, shape, Q, kinds, exact, vol, size, normals, sig, dens, model_data=(V, F), qtype=case["q"].get("qtype", "float"))
     tvec = np.asarray(case["t"]) * size
     moved = call(S.ConvexPolyhedron, V + tvec) if convex_cls else call(S.Polyhedron, V + tvec, [np.array(f_) for f_ in F], True)
     _relations(rec, shape, Q, got, vol, size, sig, dens, None if isinstance(moved, Raised) else (tvec, moved), normals)
@@ -257,7 +280,7 @@ def _polygon(case, rec):
     exact = fourier.ft_polygon(V, nrm, Q)
     dens = case["q"]["density"]
     rec.concrete = {"vertices": V, "normal": list(map(float, nrm)), "q": Q[:4]}
-    got = _compare(rec, shape, Q, kinds, exact, o["area"], size, [nrm], sig, dens, True, model_data=(V, nrm, o["area"]))
+    got = _compare(rec, shape, Q, kinds, exact, o["area"], size, [nrm], sig, dens, True, model_data=(V, nrm, o["area"]), qtype=case["q"].get("qtype", "float"))
     tvec = np.asarray(case["t"]) * size
     moved = call(S.Polygon, V + tvec, **({} if arg is None else {"normal": arg}))
     # a translation changes the phase only through its in-plane part
@@ -289,7 +312,7 @@ def _sphere(case, rec):
     vol = 4 / 3 * np.pi * R**3
     dens = case["q"]["density"]
     rec.concrete = {"radius": R, "centre": c, "q": Q[:4]}
-    got = _compare(rec, shape, Q, kinds, exact, vol, 2 * R, [], sig, dens, model_data=(R, c))
+    got = _compare(rec, shape, Q, kinds, exact, vol, 2 * R, [], sig, dens, model_data=(R, c), qtype=case["q"].get("qtype", "float"))
     tvec = np.asarray(case["t"]) * R
     moved = call(S.Sphere, R, c + tvec)
     _relations(rec, shape, Q, got, vol, 2 * R, sig, dens, None if isinstance(moved, Raised) else (tvec, moved))
